@@ -265,6 +265,24 @@ def _twin(M, w, **kw):
         pass
 
 
+def _decoy(M, w, **kw):
+    """a LATER instance of the same class constructed with DIFFERENT arguments (longer filters, one more level) before the
+    instance under test is used: what another instance was built with is nobody else's business (no class-level or
+    module-level state keyed by level, length or name)"""
+    try:
+        if isinstance(w, str):
+            w2 = 'db4' if w != 'db4' else 'db2'
+        else:
+            w2 = tuple(np.concatenate([np.asarray(f, dtype=np.float64).ravel(), [1.0, -2.0]]) for f in w)
+        kw2 = dict(kw)
+        if isinstance(kw2.get('J'), int):
+            kw2['J'] = kw2['J'] + 1
+        _TWINS.append(M(wave=w2, **kw2))
+        del _TWINS[:-8]
+    except Exception:
+        pass
+
+
 def _build(M, w, **kw):
     order = 0
     if not isinstance(w, str) and os.environ.get('VERIF_NO_TWINS') != '1':
@@ -277,6 +295,8 @@ def _build(M, w, **kw):
     mod = M(wave=w, **kw)
     if order == 2:
         _twin(M, w, **kw)
+    if os.environ.get('VERIF_NO_TWINS') != '1':
+        _decoy(M, w, **kw)
     _scribble(w)
     return mod
 
